@@ -120,6 +120,19 @@ def main():
         vs = vars_of(phi)
         subs, main, cdecl, named = decompose(rng, phi, S, consts=False)
         named = [(nm, q) for nm, q in named if vars_of(q)]
+        if online and rng.random() < 0.45:
+            # a named operand that repeats its boundary sample from batch to batch (bounded operators do), directly under
+            # a binary operator: the parent must not disturb what get_value(name) returns
+            from modular import text_with_names
+            t1 = un(rng.choice(["onceT", "histT"]), g.formula(rng.choice([0, 1])), *rng.choice([(1, 1), (0, 1), (1, 2), (0, 2)]))
+            t2 = g.formula(rng.choice([0, 1]))
+            if not vars_of(t1):
+                continue
+            phi = bi(rng.choice(["and", "and", "or", "implies", "iff", "xor", "since"]), *((t1, t2) if rng.random() < 0.6 else (t2, t1)))
+            vs = vars_of(phi)
+            named = [("sub1", t1)]
+            subs = ["sub1 = " + to_text(t1, S)]
+            main = text_with_names(phi, S, {id(t1): "sub1"})
         if not named or len(named) != len(subs):
             continue
         o1 = ct_obj(phi, S, vs)
